@@ -7,7 +7,7 @@ P = {
          "bounds: 320 generated voices + V0/P1, labels from Lambda/RECOMB1/corpus windows/STRUCT1, <= 2 (quick) / 3 (thorough) simultaneous deviations; stable-range premise in its most conservative reading"),
  "C02": ("HIST: stateright BFS over all call histories {step(b), frames query, finish} up to the depth bound on real generators; invariant vs the one-shot waveform in every state",
          "explicit-state model checking (stateright) of operation histories on the real SpeechGenerator", "4 C02", "buffers <= 3 x fperiod, generators of 0..5 frames exhaustively plus V0 chunk families"),
- "C03": ("HIST (all call histories on one engine, baselines from fresh child processes) + SCHED (all interleavings of 2-3 concurrent calls with <= B preemptions at hook sites under a controlled scheduler) + compile-time Send/Sync assertion",
+ "C03": ("HIST (all call histories on one engine, baselines from fresh child processes) + SCHED (all interleavings of 2-3 concurrent calls with <= B preemptions at hook sites under a controlled scheduler) + compile-time Send/Sync assertion + re-apply enumeration ([set(f), set(get())] vs a fresh engine given the getter's value, every real-valued setter)",
          "stateless preemption-bounded schedule exploration of the real code + explicit-state history search", "4 C03", "preemptions only at verif-hooks sites; B <= 2; <= 3 controlled threads; histories to depth 4/5; races whose window contains no hook site are only reached by the supplementary free-running rounds (8 real threads, mixed utterances/settings, setter bursts), which are sampling and labelled so in the evidence"),
  "C04": ("SCOPE: every model x tree x label of the enumerated spaces compared bit-exactly with an independent reader + glob matcher; generated files over all tree shapes <= 3 internal nodes",
          "bounded exhaustive input enumeration against an independent reference reader", "4 C04", "labels from corpus + RECOMB1 + path-constructed labels; generated trees <= 3 internal nodes"),
@@ -29,13 +29,13 @@ P = {
          "bounded exhaustive enumeration over corpus windows", "4 C12", "windows with stride (quick) / stride 1-4 (thorough); 5 weights"),
  "C13": ("SCOPE: all gap compositions (small orders) / single-gap variations (large orders) x stages x alpha x gain forms through the real Vocoder vs K/|A|^s",
          "bounded exhaustive lattice enumeration vs closed-form spectrum", "4 C13", "LSP sets on the gap lattice"),
- "C14": ("SCOPE: C06 lattice x beta x alpha through the real Vocoder; (1+beta) shape law and energy preservation on the stationary pulse response",
+ "C14": ("SCOPE: C06 lattice x beta x alpha through the real Vocoder; (1+beta) shape law and energy preservation on the stationary pulse response; frame histories (glides, single-coefficient steps, bit-level twins)",
          "bounded exhaustive lattice enumeration vs closed-form law", "4 C14", "cepstra on the lattice"),
  "C15": ("SCOPE: 9 shifts x voices x utterances x <= 1 further deviation; trajectories via hook 1",
          "bounded exhaustive configuration enumeration", "4 C15", "shift lattice {-24..24}"),
  "C16": ("SCOPE: 9 volumes x voices of both filter families x utterances x <= 1 further deviation",
          "bounded exhaustive configuration enumeration", "4 C16", "volume lattice {-60..60} dB"),
- "C17": ("SCOPE: 4 input forms x blank-line positions; every single-character fault at every position of 3 base lines from a 30-symbol alphabet",
+ "C17": ("SCOPE: 4 input forms x blank-line positions; every single-character fault at every position of 3 base lines from a 30-symbol alphabet; long bad lines of multi-byte characters at every byte phase in every token position",
          "exhaustive single-fault enumeration of label text", "4 C17", "single faults (pairs on a window in thorough)"),
  "C18": ("fault enumeration: every single fault of each class on generated files (every byte offset truncation, every header number, every token) and class representatives on V0, pairs on a reduced set, each in an isolated child process",
          "exhaustive single/double fault enumeration with process isolation", "4 C18", "<= 2 simultaneous faults"),
